@@ -3,6 +3,7 @@ C10 — Concurrent updates of one tile never lose a contribution.
 -/
 import ToastyVerif.Model.Lock
 import ToastyVerif.Gen.PIO
+import ToastyVerif.Gen.Plumbing
 
 namespace C10
 open Lock
@@ -447,5 +448,9 @@ theorem update_image_facts : Gen.PIO.update_locked_read_yield_write = true ∧ G
 example : ∃ s, run (init 2) [.lock 1, .readBegin 1, .readEnd 1, .writeBegin 1, .writeEnd 1, .unlock 1,
     .lock 0, .readBegin 0, .readEnd 0, .writeBegin 0, .writeEnd 0, .unlock 0] = some s ∧
     s.file = .stable [1, 0] ∧ s.us 0 = .done ∧ s.us 1 = .done := ⟨_, rfl, rfl, rfl, rfl⟩
+
+/-- **entry_points**: the call sites through which this property's workflows reach the modelled functions have, in the source as
+it is now, the argument plumbing the model assumes (facts re-extracted on every run, `Gen/Plumbing.lean`) -/
+theorem entry_points : Gen.Plumbing.multi_tan_worker_updates_into_basis = true ∧ Gen.Plumbing.update_image_writes_back_plainly = true := by decide
 
 end C10
